@@ -62,6 +62,11 @@ def make_ruleset(rng, name):
     ps = sorted((rng.random() for _ in structs), reverse=True)
     tot = sum(ps)
     rs["grammar"] = [(s, p / tot) for s, p in zip(structs, ps)]
+    if rng.random() < 0.6 and len(rs["grammar"]) >= 3:
+        # probabilities whose repr has no decimal point (1e-05) or is an integer-looking float, as the trainer writes for rare structures
+        tail = [1e-05, 2e-06, 5e-07, 1e-10]
+        k = rng.randint(1, min(3, len(rs["grammar"]) - 1))
+        rs["grammar"] = rs["grammar"][:-k] + [(s, tail[i]) for i, (s, _) in enumerate(rs["grammar"][-k:])]
     rs["prince"] = [(k, 1.0 / len(kinds)) for k in kinds]
     return rs
 
